@@ -1,6 +1,6 @@
 (* C14 (codec half) — non-vacuity examples for the hypotheses of SbsProps.v and concrete behaviour *)
 From Coq Require Import ZArith List Bool Lia Sorting.Sorted.
-From FV Require Import Lib.RustInt C14.SbsModel C14.SbsProofs C14.SbsSpec C14.SbsRoundtrip.
+From FV Require Import Lib.RustInt C14.SbsModel C14.SbsProofs C14.SbsSpec C14.SbsRoundtrip C14.SbsClip.
 Import ListNotations.
 Open Scope Z_scope.
 
@@ -62,3 +62,13 @@ Proof.
   - eexists. split; [vm_compute; reflexivity | vm_compute; reflexivity].
   - eexists. split; [vm_compute; reflexivity | vm_compute; reflexivity].
 Qed.
+
+(* the filled-node clause on concrete inputs: BF 8 / H 11 root filled (2^33 values) with bias 2^31 keeps
+   [2^31, 2^32-1]; the same with max = 2^31 + 5; a bias that pushes every value past max gives the empty set;
+   the two trailing bytes stay unread *)
+Example sbs_filled_root_examples :
+  decode [46; 0; 7; 9] 2147483648 (U32 - 1) = Ok [(2147483648, 4294967295)] [7; 9] /\
+  decode [46; 0; 7; 9] 2147483648 2147483653 = Ok [(2147483648, 2147483653)] [7; 9] /\
+  decode [46; 0; 7; 9] 100 99 = Ok [] [7; 9] /\
+  decode [31; 0; 0; 0; 0] 5 (U32 - 1) = Ok [(5, 4294967295)] [].
+Proof. repeat split; vm_compute; reflexivity. Qed.
